@@ -16,13 +16,14 @@ from __future__ import annotations
 import itertools
 import random
 import re
+import sys
 
 from .. import gen as G
 from .. import lang as L
 from .. import shrink as S
 from ..common import h64
 from ..monitors import c12_lines as O
-from ..ref import CL, ref_run
+from ..ref import CL, left_recursive_rules, ref_run
 from ..tsu import StepHeart, build, gen_parser
 
 ID = 'C12'
@@ -32,7 +33,9 @@ RULE = ('(a) cases = (text, input implementation, offset): every string over {a,
         'x every offset 0..len, each observed through lineinfo/lineat/poscol/line/col/get_line and compared with an '
         'independent splitter; (b) cases = (grammar, start, input, variant) with parseinfo on: seeded random grammars with '
         'named elements (some rules typed -> model nodes through asmodel/ModelBuilderSemantics; some rules decorated '
-        '@nomemo/@nostak; model, text-compiled and GENERATED-parser routes) and hand-written typed grammars (incl. a '
+        '@nomemo/@nostak; model, text-compiled and GENERATED-parser routes; about 55% of the cases with one more bundle of parse-time '
+        'settings that only concern diagnostics or caching next to parseinfo: trace on (plain, colorized, with source names; '
+        'output to a counting sink), memoization off (no left recursion), perlinememos 0.01, prune_memos_on_cut off) and hand-written typed grammars (incl. a '
         'left-recursive cycle entered mid-text, nullable tail rules matching at end of text, decorated copies), inputs derivation-guided with leading/inter-token blanks, CR/LF/CRLF and comments; every AST/Node in the '
         'result is looked up in REF\'s table of successful rule evaluations. non-trivial = (a) a text with >=1 line break or '
         'an offset at end of text, distinct by (text, impl); (b) an accepted parse in which >=1 AST/Node parseinfo was '
@@ -52,6 +55,10 @@ ASSUMPTIONS = [
     'they return; executions through documented-open corners (REF flags / recorded C01 trigger) are compared on '
     '(rule,pos,endpos) only, not on the value; accept/reject disagreements between REF and the real parser belong to '
     'C01 and are counted, not judged here',
+    'trace / colorize / trace_filename (console diagnostics), memoization off for grammars without left recursion, perlinememos '
+    'and prune_memos_on_cut (cache size and eviction) do not change what a rule matched: REF ignores them and the same (rule, '
+    'pos, endpos, value, line) is required; a violation that vanishes when only these settings are removed gets the '
+    'signature suffix only-with:<setting>',
     'ParseInfo.endline, Node.text and the parseinfo argument handed to semantic actions are not in the statement: '
     'observed and counted only',
 ]
@@ -82,7 +89,14 @@ FLOORS = {
               'b_nodes_of_uncached_rules_after_leading_ws': 3500, 'b_nodes_of_uncached_rules_after_line_break': 2000,
               'b_pos_at_end_of_text_after_trailing_break': 1200,
               'b_mode:asmodel': 3000, 'b_mode:builder': 3000, 'b_mode:ast': 3500,
-              'b_failinfo_checked': 7000},
+              'b_failinfo_checked': 7000,
+              'b_cfg:trace': 2500, 'b_cfg:trace_color': 1200, 'b_cfg:trace_source': 600, 'b_cfg:memo_off': 1100,
+              'b_cfg:plm': 1200, 'b_cfg:noprune': 1200, 'b_nodes_checked_under_extra_settings': 12000,
+              'b_traced_nodes_checked': 7000, 'b_traced_ast_nodes': 3500, 'b_traced_model_nodes': 3000,
+              'b_traced_nodes_after_leading_ws': 4000, 'b_traced_nodes_ending_before_blanks': 2700,
+              'b_traced_nodes_ending_before_line_break': 1800, 'b_traced_inner_nodes_ending_before_blanks': 1800,
+              'b_traced_nodes_of_rules_ending_in_a_call_before_blanks': 1400, 'b_trace_lines_written': 150000,
+              'b_traced_route:generated': 700, 'b_traced_route:text': 600},
     'thorough': {'a_strings': 349525, 'a_offsets_checked': 7000000, 'a_offsets:end-of-text': 350000,
                  'a_offsets:on-cr': 600000, 'a_offsets:on-lf': 600000, 'a_offsets:on-cr-of-crlf': 200000,
                  'a_offsets:on-lf-of-crlf': 200000, 'a_offsets:empty-text': 2, 'a_long_texts': 6000,
@@ -96,7 +110,16 @@ FLOORS = {
                  'b_accepted_decorated_nomemo_nostak': 200000, 'b_accepted_generated_with_uncached_rules': 35000,
                  'b_nodes_of_uncached_rules': 300000, 'b_nodes_of_uncached_rules_after_leading_ws': 170000,
                  'b_nodes_of_uncached_rules_after_line_break': 100000,
-                 'b_pos_at_end_of_text_after_trailing_break': 55000},
+                 'b_pos_at_end_of_text_after_trailing_break': 55000,
+                 'b_cfg:trace': 100000, 'b_cfg:trace_color': 48000, 'b_cfg:trace_source': 24000,
+                 'b_cfg:memo_off': 44000, 'b_cfg:plm': 48000, 'b_cfg:noprune': 48000,
+                 'b_nodes_checked_under_extra_settings': 480000, 'b_traced_nodes_checked': 280000,
+                 'b_traced_ast_nodes': 140000, 'b_traced_model_nodes': 120000,
+                 'b_traced_nodes_after_leading_ws': 160000, 'b_traced_nodes_ending_before_blanks': 108000,
+                 'b_traced_nodes_ending_before_line_break': 72000,
+                 'b_traced_inner_nodes_ending_before_blanks': 72000,
+                 'b_traced_nodes_of_rules_ending_in_a_call_before_blanks': 56000, 'b_trace_lines_written': 6000000,
+                 'b_traced_route:generated': 28000, 'b_traced_route:text': 24000},
 }
 SHARD_TIMEOUT = {'quick': 600, 'thorough': 3000}
 PEAK_COUNTERS = ('b_max_rules_in_one_tree',)
@@ -529,9 +552,10 @@ def walk_real(v, out, depth=0):
             walk_real(x, out, depth + 1)
 
 
-def judge_tree(result, ref, text, value_sensitive, uncached=frozenset()):
+def judge_tree(result, ref, text, value_sensitive, uncached=frozenset(), calltail=frozenset()):
     """-> (problems, stats)   problems: [(sigpart, human text)]
-    uncached: names of rules that run without memoization / off the call stack (evidence counters only)"""
+    uncached: names of rules that run without memoization / off the call stack (evidence counters only)
+    calltail: names of rules whose body may end in a call to another rule (evidence counters only)"""
     Lo = O.Lines(text)
     ev = {}
     for (rule, pos, end, val) in ref.events:
@@ -542,7 +566,8 @@ def judge_tree(result, ref, text, value_sensitive, uncached=frozenset()):
     stats = {'nodes': 0, 'ast': 0, 'node': 0, 'value': 0, 'after_ws': 0, 'line_nonzero': 0, 'at_eot': 0,
              'node_text_none': 0, 'node_text_ok': 0, 'endline_other': 0, 'distinct_rules': set(),
              'plain_dict_open_corner': 0, 'at_eot_after_break': 0, 'uncached': 0, 'uncached_after_ws': 0,
-             'uncached_after_break': 0}
+             'uncached_after_break': 0, 'before_blanks': 0, 'before_break': 0, 'calltail_before_blanks': 0,
+             'inner_before_blanks': 0}
     seen = set()
     for kind, x in nodes:
         if id(x) in seen:
@@ -622,6 +647,15 @@ def judge_tree(result, ref, text, value_sensitive, uncached=frozenset()):
                 stats['line_nonzero'] += 1
             if pos == len(text):
                 stats['at_eot'] += 1
+            if key in ev and isinstance(endpos, int) and pos < endpos < len(text) and text[endpos] in ' \n\r\t':
+                # the match stops right before blanks / a line break that the rule did not consume
+                stats['before_blanks'] += 1
+                if text[endpos] in '\n\r' or text[endpos:].lstrip(' \t')[:1] in ('\n', '\r'):
+                    stats['before_break'] += 1
+                if rule in calltail:
+                    stats['calltail_before_blanks'] += 1
+                if x is not result:
+                    stats['inner_before_blanks'] += 1
             # outside the statement: counted only
             try:
                 if isinstance(endpos, int) and 0 <= endpos <= len(text) and \
@@ -651,15 +685,69 @@ def short(v, n=160):
 class Variant:
     """how one grammar is exercised (all JSON-able)"""
 
-    def __init__(self, enable, route, impl, mode):
-        self.enable, self.route, self.impl, self.mode = enable, route, impl, mode
+    def __init__(self, enable, route, impl, mode, extra='none'):
+        self.enable, self.route, self.impl, self.mode, self.extra = enable, route, impl, mode, extra
 
     def json(self):
-        return {'enable': self.enable, 'route': self.route, 'impl': self.impl, 'mode': self.mode}
+        return {'enable': self.enable, 'route': self.route, 'impl': self.impl, 'mode': self.mode, 'extra': self.extra}
 
     @staticmethod
     def of(d):
-        return Variant(d['enable'], d['route'], d['impl'], d['mode'])
+        return Variant(d['enable'], d['route'], d['impl'], d['mode'], d.get('extra', 'none'))
+
+
+# parse-time settings that accompany `parseinfo` and, by the documentation, change diagnostics or caching only: the
+# statement quantifies over "inputs with parseinfo on" whatever else is configured, so the same (rule, pos, endpos,
+# line) is required under each of them.  `memo_off` is only drawn for grammars without left recursion (left recursion
+# needs the memo table).
+EXTRAS = {
+    'none': {},
+    'trace': {'trace': True, 'colorize': False},
+    'trace_color': {'trace': True, 'colorize': True},
+    'trace_source': {'trace': True, 'colorize': False, 'trace_filename': 'vt-input'},
+    'memo_off': {'memoization': False},
+    'plm': {'perlinememos': 0.01},
+    'noprune': {'prune_memos_on_cut': False},
+}
+EXTRA_DRAW = (['none'] * 11 + ['trace'] * 4 + ['trace_color'] * 2 + ['trace_source'] + ['memo_off'] * 2 + ['plm'] * 2
+              + ['noprune'] * 2)
+
+
+def draw_extra(rng, g):
+    x = rng.choice(EXTRA_DRAW)
+    if x == 'memo_off' and left_recursive_rules(g)[0]:
+        x = 'trace'
+    return x
+
+
+class TraceSink:
+    """stands in for sys.stderr while a traced parse runs (the console tracer prints there)"""
+
+    def __init__(self):
+        self.chars = 0
+        self.lines = 0
+
+    def write(self, s):
+        self.chars += len(s)
+        self.lines += s.count('\n')
+        return len(s)
+
+    def flush(self):
+        pass
+
+    def isatty(self):
+        return False
+
+
+def ends_in_call(e):
+    """the last thing the expression does may be a call to another rule (evidence counters only)"""
+    if isinstance(e, L.Call):
+        return True
+    if isinstance(e, L.Seq):
+        return bool(e.items) and ends_in_call(e.items[-1])
+    if isinstance(e, (L.LA, L.NLA)):
+        return False
+    return any(ends_in_call(c) for c in L.children(e))
 
 
 LEXICAL = ('whitespace', 'comments', 'eol_comments', 'nameguard', 'namechars', 'ignorecase')
@@ -686,6 +774,8 @@ class PCase:
         self.uncached = frozenset(r.name for r in g.rules if any(d in ('nomemo', 'nostak') for d in r.decorators))
         self.alt = text_syntax_alt
         self.src = L.grammar_text(self.gm)
+        self.calltail = frozenset(r.name for r in g.rules if ends_in_call(r.body))
+        self.trace_chars = self.trace_lines = 0
         # end-position wrappers (DESIGN 2.1), one per rule: VTS<i> = v:<rule> r:VTREST ; VTREST = /(?s).*/ ;
         # upper-case names: no whitespace skipping of their own
         self.wrap = {r.name: f'VTS{i}' for i, r in enumerate(g.rules)}
@@ -731,8 +821,12 @@ class PCase:
         if not parseinfo:
             kw['parseinfo'] = False
         kw.update(self.sem_kw())
+        kw.update(EXTRAS[self.v.extra])
         n = S.gsize(self.g)
         heart = StepHeart(5000 + 60 * n * n * (len(text) + 1) * (len(text) + 1))
+        sink, old = None, sys.stderr
+        if kw.get('trace'):
+            sink = sys.stderr = TraceSink()
         try:
             inp = make_input(text, self.v.impl, self.lexical)
             parser = self.cls() if self.cls is not None else self.model
@@ -744,6 +838,11 @@ class PCase:
             return 'EXC', e
         except Exception as e:  # noqa: BLE001
             return 'EXC', e
+        finally:
+            sys.stderr = old
+            if sink is not None:
+                self.trace_chars += sink.chars
+                self.trace_lines += sink.lines
 
     def ref(self, text, start):
         action = ref_action if self.v.mode != 'ast' else None
@@ -758,7 +857,16 @@ def check_pcase(acc, pc: PCase, start, text, origin, shrink=True):
     if a[0] == 'budget':
         acc.count('b_ref_budget')
         return set()
+    tc0 = pc.trace_chars, pc.trace_lines
     tag, res = pc.parse(text, start)
+    extra = v.extra
+    traced = bool(EXTRAS[extra].get('trace'))
+    if traced:
+        acc.count('b_traced_parses')
+        acc.count('b_trace_chars_written', pc.trace_chars - tc0[0])
+        acc.count('b_trace_lines_written', pc.trace_lines - tc0[1])
+        if pc.trace_lines == tc0[1]:
+            acc.count('b_traced_parses_without_output')
     wit = {'part': 'b', 'grammar': L.to_json(pc.g), 'grammar_text': L.grammar_text(pc.gm), 'start': start,
            'text': text, 'variant': v.json(), 'origin': origin}
     if tag == 'EXC':
@@ -786,6 +894,8 @@ def check_pcase(acc, pc: PCase, start, text, origin, shrink=True):
     if consumed != a[1]:
         # REF and the real parser consumed different amounts: PEG-semantics business (C01/C05), not judged here
         acc.count('b_length_disagreement_c01_domain')
+        if extra != 'none':
+            acc.count('b_length_disagreement_c01_domain_under_extra_settings')
         return set()
     flagged = bool(r.nonw or r.triggers)
     value_sensitive = not flagged
@@ -794,8 +904,22 @@ def check_pcase(acc, pc: PCase, start, text, origin, shrink=True):
         acc.count('b_value_disagreement_c01_domain')
         return set()
     acc.count('b_accepted')
-    problems, st = judge_tree(res, r, text, value_sensitive, pc.uncached)
+    problems, st = judge_tree(res, r, text, value_sensitive, pc.uncached, pc.calltail)
     acc.count('b_nodes_checked', st['nodes'])
+    acc.count('b_nodes_ending_before_blanks', st['before_blanks'])
+    acc.count('b_nodes_of_rules_ending_in_a_call_before_blanks', st['calltail_before_blanks'])
+    if extra != 'none':
+        acc.count('b_nodes_checked_under_extra_settings', st['nodes'])
+        acc.count(f'b_nodes_checked:{extra}', st['nodes'])
+    if traced:
+        acc.count('b_traced_nodes_checked', st['nodes'])
+        acc.count('b_traced_nodes_after_leading_ws', st['after_ws'])
+        acc.count('b_traced_nodes_ending_before_blanks', st['before_blanks'])
+        acc.count('b_traced_nodes_ending_before_line_break', st['before_break'])
+        acc.count('b_traced_nodes_of_rules_ending_in_a_call_before_blanks', st['calltail_before_blanks'])
+        acc.count('b_traced_inner_nodes_ending_before_blanks', st['inner_before_blanks'])
+        acc.count('b_traced_model_nodes', st['node'])
+        acc.count('b_traced_ast_nodes', st['ast'])
     acc.count('b_ast_nodes', st['ast'])
     acc.count('b_model_nodes', st['node'])
     acc.count('b_value_compared', st['value'])
@@ -819,6 +943,10 @@ def check_pcase(acc, pc: PCase, start, text, origin, shrink=True):
         acc.count('b_impl:' + v.impl)
         acc.count('b_route:' + v.route)
         acc.count('b_mode:' + v.mode)
+        acc.count('b_cfg:' + extra)
+        if traced:
+            acc.count('b_traced_route:' + v.route)
+            acc.count('b_traced_impl:' + v.impl)
         if pc.decorated:
             acc.count('b_accepted_decorated_nomemo_nostak')
         if v.route == 'generated' and pc.uncached:
@@ -826,13 +954,26 @@ def check_pcase(acc, pc: PCase, start, text, origin, shrink=True):
         acc.nontriv('b', L.grammar_text(pc.gm), start, text, v.json())
     if not problems:
         return set()
+    # a problem that only exists under the extra parse-time settings is a different mechanism from one that is there anyway
+    plain_parts = None
+    if extra != 'none':
+        pc0 = PCase.__new__(PCase)
+        pc0.__dict__.update(pc.__dict__)
+        pc0.v = Variant(v.enable, v.route, v.impl, v.mode, 'none')
+        tag0, res0 = pc0.parse(text, start)
+        if tag0 == 'ok' and res0[1] == a[1]:
+            plain_parts = {p[0] for p in judge_tree(res0[0], r, text, value_sensitive, pc.uncached, pc.calltail)[0]}
     parts = set()
     for part, what in problems:
         if part in parts:
             continue
         parts.add(part)
+        only = tail = ''
+        if plain_parts is not None and part not in plain_parts:
+            only = ':only-with:' + ('trace' if traced else extra)
+            tail = f' -- the same call without {EXTRAS[extra]} does not show this'
         g2, t2, w = pc.g, text, dict(wit)
-        if shrink and origin.get('mode') != 'replay' and acc.counters.get('violations:b:' + part, 0) < 3:
+        if shrink and origin.get('mode') != 'replay' and acc.counters.get('violations:b:' + part + only, 0) < 3:
             g2, t2, (part2, what2) = shrink_b(pc, start, text, (part, what))
             if part2 == part and (g2 is not pc.g or t2 != text):
                 what = what2
@@ -840,9 +981,10 @@ def check_pcase(acc, pc: PCase, start, text, origin, shrink=True):
                           'original': {'grammar_text': wit['grammar_text'], 'text': text}})
             else:
                 g2, t2 = pc.g, text
-        acc.violation('b:' + part,
+        acc.violation('b:' + part + only,
                       f'{what}; grammar {L.grammar_text(g2).strip()!r} start {start!r} input {t2!r} '
-                      f'[{v.enable},{v.route},{v.impl},{v.mode}]', w)
+                      f'[{v.enable},{v.route},{v.impl},{v.mode}' + (f',{extra} {EXTRAS[extra]}' if extra != 'none' else '')
+                      + ']' + tail, w)
     return parts
 
 
@@ -943,6 +1085,8 @@ def run_pinfo(desc, acc):
     for i in range(desc['n']):
         rng = random.Random(h64('C12', 'pinfo', desc['seed'], desc['shard'], i))
         g, variant = random_case(rng, i)
+        # its own stream: the grammar/input streams are the same as without this dimension
+        variant.extra = draw_extra(random.Random(h64('C12', 'pinfo-extra', desc['seed'], desc['shard'], i)), g)
         pc = PCase(g, variant, text_syntax_alt=bool(i % 2))
         if pc.model is None:
             acc.count('b_build_failed')
@@ -1081,6 +1225,7 @@ def run_typed(desc, acc):
         variant = Variant(enable=rng.choice(['directive', 'setting']), route=route,
                           impl=rng.choice(['str', 'Buffer', 'TextLines']), mode=mode)
         deco = rng.random() < 0.5
+        variant.extra = draw_extra(random.Random(h64('C12', 'typed-extra', desc['seed'], desc['shard'], i)), g0)
         alt = variant.enable == 'directive' and route == 'text'     # `rule::Type =` vs `rule[Type] =`
         key = (gi, variant.enable, variant.mode, route, deco)
         if key not in cases:
@@ -1151,7 +1296,8 @@ MANIFEST = {
                   'thorough) and every position accessor of the real cursors is compared with an independent splitter; random texts '
                   'up to 2000 chars mix the three conventions; FailedParse.info is compared with the splitter at FailedParse.pos. '
                   '(b) random and hand-written grammars are parsed by the real engine with parseinfo on (directive and setting, '
-                  'text, object and generated-parser route, @nomemo/@nostak rules, str/TextLines/Buffer input, plain ASTs and model nodes) and every AST/Node found in the '
+                  'text, object and generated-parser route, @nomemo/@nostak rules, str/TextLines/Buffer input, plain ASTs and model nodes, '
+                  'alone or together with trace / colorize / trace_filename / memoization off / perlinememos / prune_memos_on_cut) and every AST/Node found in the '
                   'result must carry a parseinfo that names a successful REF evaluation (rule, start after leading whitespace, end, '
                   'equal value) and the splitter\'s line of its start. exploration is the right level: the grammar x input space '
                   'is unbounded; the finite slice of (a) is exhaustive',
